@@ -737,6 +737,32 @@ def c07(case, impl):
     if bad:
         k, why = bad
         return f"line {k} does not parse as BASIC09: {why} | {lines[k].strip()[:400]}"
+    # a label stands once: a second line with the same number (a bare jump target written where a statement belongs) is not a
+    # program BASIC09 accepts - unless the source itself numbers two lines alike
+    labels = [T.line_label(l)[0] for l in lines]
+    labels = [n for n in labels if n is not None]
+    dup = sorted({n for n in labels if labels.count(n) > 1})
+    if dup:
+        src_nums = re.findall(r"(?m)^\s*(\d+)", case["text"].replace("\r", "\n"))
+        if len(src_nums) == len(set(src_nums)):
+            k = [i for i, l in enumerate(lines) if T.line_label(l)[0] == dup[0]][1]
+            return f"line {k} does not parse as BASIC09: the label {dup[0]} stands a second time | {lines[k].strip()[:80]}"
+    # FOR / NEXT: when the source's loops are lexically nested (every NEXT closes the innermost open FOR), so are the output's -
+    # every NEXT names the innermost open loop and every FOR is closed
+    if _src_loops_nested(case["text"]):
+        stack = []
+        for k, line in enumerate(lines):
+            for st in T.split_statements(T.code_tokens(T.line_label(line)[1])):
+                ws = [(kk, t.upper() if kk == "id" else t) for kk, t in st]
+                if ws and ws[0] == ("id", "FOR") and len(ws) > 1:
+                    stack.append((ws[1][1], k))
+                elif ws and ws[0] == ("id", "NEXT") and len(ws) > 1:
+                    if not stack or stack[-1][0] != ws[1][1]:
+                        top = f"FOR {stack[-1][0]}" if stack else "none"
+                        return f"line {k} does not parse as BASIC09: NEXT {ws[1][1]} but the innermost open loop is {top} | {line.strip()[:80]}"
+                    stack.pop()
+        if stack:
+            return f"line {stack[-1][1]} does not parse as BASIC09: FOR {stack[-1][0]} is never closed | {lines[stack[-1][1]].strip()[:80]}"
     if flag(case, 5) and not flag(case, 6):
         # the bundled runtime procedures are part of the output: every block they open must be closed before the next header
         for name, plines in T.split_procedures(out.rstrip("\n"))[:-1]:
@@ -748,6 +774,31 @@ def c07(case, impl):
             if kk == "id" and t in ("inf", "nan"):
                 return f"non-finite literal {t} in line {k}: {line.strip()[:70]}"
     return None
+
+
+def _src_loops_nested(text):
+    """the source's FOR / NEXT, read in text order, are properly nested: a bare NEXT closes the innermost loop, a NEXT with
+    names closes exactly the innermost loops in that order, nothing is left open, and no IF / GOTO / ON could skip one"""
+    stack, seen = [], False
+    for raw in re.split(r"[\r\n]+", text.replace("\x00", "")):
+        body = src_blank(re.sub(r"^\s*\d+", "", raw))
+        if re.search(r"\b(FOR|NEXT)\b", body) and re.search(r"\b(IF|GOTO|GOSUB|ON|RETURN|END|STOP)\b", body):
+            return False
+        for m in re.finditer(r"\bFOR\s*([A-Z][A-Z0-9]*)\s*=|\bNEXT\b\s*([A-Z0-9, ]*)", body):
+            seen = True
+            if m.group(1):
+                stack.append(m.group(1)[:2])
+            else:
+                names = [n.strip()[:2] for n in (m.group(2) or "").split(",") if n.strip()]
+                if not names:
+                    if not stack:
+                        return False
+                    stack.pop()
+                for n in names:
+                    if not stack or stack[-1] != n:
+                        return False
+                    stack.pop()
+    return seen and not stack
 
 
 def c07_classify(case, impl, why):
@@ -780,6 +831,36 @@ def c07_tie(case, impl):
     `Model.Emit` writes for this program's AST (answered by the driver in the suite run)"""
     sk = (case.get("aux") or {}).get("skel", "ok same")
     return None if sk == "ok same" else f"skeleton differs from emitted block keywords: {sk}"
+
+
+# --------------------------------------------------------------------------- C20 (how the tool calls the string helpers)
+
+def c20_alias(case, impl):
+    """BASIC09 passes variables by reference, and ecb_instr / ecb_string clear their result before they read their
+    arguments: the helper computes the Color BASIC function only if its result cell is not also the argument it reads
+    afterwards (the start index of INSTR, the string of STRING$)"""
+    out = out_text(impl)
+    if out is None:
+        return None
+    for line in program_lines(case, out):
+        for callee, args, _ in T.run_calls(T.code_tokens(line)):
+            if callee.lower() == "ecb_instr" and args and len(args) == 4:
+                a, r = "".join(t for _, t in args[0]), "".join(t for _, t in args[3])
+                if a == r:
+                    return f"ecb_instr gets {r} as start index and as result: the result is cleared before the index is read | {line.strip()[:100]}"
+            if callee.lower() == "ecb_string" and args and len(args) == 3:
+                a, r = "".join(t for _, t in args[1]), "".join(t for _, t in args[2])
+                if a == r:
+                    return f"ecb_string gets {r} as its string and as result: the result is cleared before the string is read | {line.strip()[:100]}"
+    return None
+
+
+def c20_alias_classify(case, impl, why):
+    # the known finding: a whole right-hand side `V=INSTR(V,…)` / `V$=STRING$(n,V$)` reuses the assignment target as result
+    m = re.search(r"gets (\S+) as", why)
+    if m and not m.group(1).startswith("tmp_"):
+        return "result-cell-is-argument"
+    return None
 
 
 # --------------------------------------------------------------------------- C05
